@@ -187,4 +187,3 @@ func totalLen(w *world) int {
 	return n
 }
 
-func modes(x *mon.Ctx) {}
